@@ -7,6 +7,8 @@ LEVEL = 'proof'
 
 def run(rep):
     enginep.engine_deductive(rep, ['engine.YP.evaluate_bounded'], heap_lemmas=False)
+    from . import syntactic
+    syntactic.caught_exceptions_do_not_escape(rep)
     q = rep.tier == 'quick'
     fw.standin(rep, 's_c17.py', ['run', rep.seed, 250 if q else 4000],
                'fault enumeration: finite/deep/left-recursive/infinite programs x limits x projection raising at answer k',
